@@ -1,8 +1,11 @@
 (* C08, clause 805 ("after a disconnect nothing more is written to that connection"): two closures over the model.
-   (1) NWr: while the outbound channel is closed (messageOut = nil) the wire log does not grow and nothing re-opens the
-       channel - for every handler, the send path, handleDisconnectState, drainMessageIn and every event except Connect.
+   (1) NWr: the wire log of an event only grows, and while the outbound channel is closed (messageOut = nil) it does not
+       grow and nothing re-opens the channel - for every handler, the send path, handleDisconnectState, drainMessageIn and every event except Connect.
        Same syntax-directed closure as FrameProofs.v / WireProofs.v (sections L1-L9 cloned, base lemmas by hand).
-   (2) Cl: within one event (other than Connect) the channel is either untouched or closed with the "closed" mark set. *)
+   (2) Cl: within one event (other than Connect) the channel is either untouched or closed with the "closed" mark set.
+   (3) Rounds: a predicate kept by every "handler, then setState" round is kept by drainMessageIn, setState and Incoming -
+       the induction principle for invariants that must hold THROUGH the drain handleDisconnectState performs before it
+       notifies and closes (used for clause 801 in C08TraceProofs.v and for 803 / 804 / 806 in C08QuietProofs.v). *)
 From Coq Require Import String.
 From Coq Require Import ZArith List Bool Lia.
 From QF Require Import Base.Bytes Session.Types Session.Model Session.Spec Session.FrameProofs.
@@ -10,16 +13,21 @@ Import ListNotations.
 Open Scope list_scope.
 Open Scope Z_scope.
 
-Definition NWr (s0 s : sess) : Prop := s_out_open s0 = false -> s_out_open s = false /\ s_wire s = s_wire s0.
+(* the wire log of an event only grows; while messageOut is closed it does not grow and the channel stays closed *)
+Definition NWr (s0 s : sess) : Prop :=
+  exists new, s_wire s = new ++ s_wire s0 /\ (s_out_open s0 = false -> s_out_open s = false /\ new = []).
 
 Lemma nw_refl s : NWr s s.
-Proof. intros H; split; [exact H | reflexivity]. Qed.
+Proof. exists []. split; [reflexivity | intros H; split; [exact H | reflexivity]]. Qed.
 Lemma nw_trans a b c : NWr a b -> NWr b c -> NWr a c.
-Proof. intros H1 H2 C. destruct (H1 C) as [A1 A2]. destruct (H2 A1) as [B1 B2]. split; [exact B1 | congruence]. Qed.
+Proof.
+  intros (n1 & A1 & A2) (n2 & B1 & B2). exists (n2 ++ n1). split; [rewrite B1, A1, app_assoc; reflexivity|].
+  intros C. destruct (A2 C) as [A3 ->]. destruct (B2 A3) as [B3 ->]. split; [exact B3 | reflexivity].
+Qed.
 
 Section Base.
 Variable s0 : sess.
-Ltac stepnw := intros H; eapply nw_trans; [exact H|]; intros C; split; [exact C | reflexivity].
+Ltac stepnw := intros H; eapply nw_trans; [exact H|]; exists []; split; [reflexivity | intros C; split; [exact C | reflexivity]].
 Lemma nw_upd_to_send s q : NWr s0 s -> NWr s0 (upd_to_send s q). Proof. stepnw. Qed.
 Lemma nw_upd_store s a b c : NWr s0 s -> NWr s0 (upd_store s a b c). Proof. stepnw. Qed.
 Lemma nw_log s c : NWr s0 s -> NWr s0 (log_cb s c). Proof. stepnw. Qed.
@@ -57,7 +65,10 @@ Variable s0 : sess.
 Lemma nw_prep s t hdr body ir ok s1 r : prep s t hdr body ir ok = (s1, r) -> NWr s0 s -> NWr s0 s1.
 Proof. intros E H. unfold prep in E. nw_pairlemma E. Qed.
 Lemma nw_send_queued s : NWr s0 s -> NWr s0 (send_queued s).
-Proof. intros H C. destruct (H C) as [A1 A2]. unfold send_queued. rewrite A1. split; assumption. Qed.
+Proof.
+  intros H. unfold send_queued. destruct (s_out_open s) eqn:Eo; [|exact H].
+  eapply nw_trans; [exact H|]. exists (rev (s_to_send s)). split; [reflexivity|]. intros C. rewrite Eo in C. discriminate C.
+Qed.
 Lemma nw_drop_queued s : NWr s0 s -> NWr s0 (drop_queued s).
 Proof. intros H. unfold drop_queued. apply nw_upd_to_send, H. Qed.
 Lemma nw_enqueue s m : NWr s0 s -> NWr s0 (enqueue s m).
@@ -290,13 +301,13 @@ End L9.
 Section Upper.
 Variable s0 : sess.
 Lemma nw_upd_chan_closed s b c d : NWr s0 s -> NWr s0 (upd_chan s false b c d).
-Proof. intros H P. destruct (H P) as [A1 A2]. split; [reflexivity | exact A2]. Qed.
+Proof. intros H. eapply nw_trans; [exact H|]. exists []. split; [reflexivity | intros C; split; reflexivity]. Qed.
 Lemma nw_upd_chan_same s b c d : NWr s0 s -> NWr s0 (upd_chan s (s_out_open s) b c d).
-Proof. intros H P. exact (H P). Qed.
+Proof. intros H. exact H. Qed.
 Lemma nw_upd_flags s a b c d : NWr s0 s -> NWr s0 (upd_flags s a b c d).
-Proof. intros H P. exact (H P). Qed.
+Proof. intros H. exact H. Qed.
 Lemma nw_upd_st s x : NWr s0 s -> NWr s0 (upd_st s x).
-Proof. intros H P. exact (H P). Qed.
+Proof. intros H. exact H. Qed.
 End Upper.
 
 Definition NWF (f : sess -> sess) : Prop := forall s0 s, NWr s0 s -> NWr s0 (f s).
@@ -312,8 +323,12 @@ Ltac nw_ext10 :=
   end.
 Ltac nw_ext ::= nw_ext10.
 
+Lemma nw_disconnect_now : NWF disconnect_now.
+Proof. intros s0 s H. unfold disconnect_now. cbv zeta. nw_go. Qed.
 Lemma nw_handle_disconnect dr : NWF dr -> NWF (handle_disconnect_state dr).
-Proof. intros Hdr s0 s H. unfold handle_disconnect_state. cbv zeta. nw_go. Qed.
+Proof.
+  intros Hdr s0 s H. rewrite hd_unfold. destruct (_ && _); [apply Hdr; exact H | apply nw_disconnect_now, Hdr, H].
+Qed.
 
 Lemma nw_set_state_with dr next : NWF dr -> NWF (fun s => set_state_with dr s next).
 Proof.
@@ -373,37 +388,9 @@ Lemma step_closed_writes_nothing : forall s e, e <> EConnect -> s_out_open s = f
   s_wire (step s e) = [] /\ s_out_open (step s e) = false.
 Proof.
   intros s e Hne Ho. unfold step.
-  destruct (nw_step_event e Hne (clear_logs s) (clear_logs s) (nw_refl _) Ho) as [A1 A2].
-  split; [exact A2 | exact A1].
+  destruct (nw_step_event e Hne (clear_logs s) (clear_logs s) (nw_refl _)) as (new & A1 & A2).
+  destruct (A2 Ho) as [B1 ->]. split; [rewrite A1; reflexivity | exact B1].
 Qed.
-
-(* setState never writes: handleDisconnectState closes the channel before it drains the inbound buffer *)
-Lemma hd_wire dr s : NWF dr -> s_wire (handle_disconnect_state dr s) = s_wire s.
-Proof.
-  intros Hdr. unfold handle_disconnect_state. cbv zeta.
-  match goal with |- s_wire (upd_chan (dr ?x) _ _ _ _) = _ =>
-    assert (Hx : s_out_open x = false /\ s_wire x = s_wire s) end.
-  { match goal with |- context [if s_out_open ?y then _ else _] => destruct (s_out_open y) eqn:E end.
-    - split; [reflexivity|]. cbn [s_wire upd_chan].
-      repeat match goal with |- context [if ?b then _ else _] => destruct b end; reflexivity.
-    - split; [exact E|].
-      repeat match goal with |- context [if ?b then _ else _] => destruct b end; reflexivity. }
-  destruct Hx as [X1 X2].
-  match goal with |- s_wire (upd_chan (dr ?x) _ _ _ _) = _ =>
-    destruct (Hdr x x (nw_refl x) X1) as [_ A2] end.
-  cbn [s_wire upd_chan]. rewrite A2. exact X2.
-Qed.
-
-Lemma set_state_with_wire dr s next : NWF dr -> s_wire (set_state_with dr s next) = s_wire s.
-Proof.
-  intros Hdr. unfold set_state_with. destruct (negb (is_connected next)); [|reflexivity].
-  destruct (is_connected (s_st s)).
-  - pose proof (hd_wire dr s Hdr) as H. destruct (s_pending_stop _); exact H.
-  - destruct (s_pending_stop s); reflexivity.
-Qed.
-
-Lemma set_state_wire s next : s_wire (set_state s next) = s_wire s.
-Proof. apply set_state_with_wire. exact nw_drain. Qed.
 
 (* ---------- (2) the channel and the "closed" mark ---------- *)
 Definition Cl (s0 s : sess) : Prop :=
@@ -420,14 +407,14 @@ Definition ClF (f : sess -> sess) : Prop := forall s0 s, Cl s0 s -> Cl s0 (f s).
 
 Lemma cl_handle_disconnect dr : ClF dr -> ClF (handle_disconnect_state dr).
 Proof.
-  intros Hdr s0 s H. unfold handle_disconnect_state. cbv zeta.
-  match goal with |- Cl _ (upd_chan (dr ?x) _ _ _ _) => assert (Hx : Cl s0 x) end.
-  { match goal with |- Cl _ (if s_out_open ?y then _ else _) => assert (Hy : Cl s0 y) by (apply (cl_same s0 s); [exact H | fr_go]);
+  intros Hdr s0 s H. rewrite hd_unfold. pose proof (Hdr s0 s H) as Hd.
+  destruct (_ && _); [exact Hd|]. unfold disconnect_now. cbv zeta.
+  match goal with |- Cl _ (upd_chan ?x _ _ _ _) => assert (Hx : Cl s0 x) end.
+  { match goal with |- Cl _ (if s_out_open ?y then _ else _) => assert (Hy : Cl s0 y) by (apply (cl_same s0 (dr s)); [exact Hd | fr_go]);
       destruct (s_out_open y) eqn:E end.
     - right. split; reflexivity.
     - exact Hy. }
-  match goal with |- Cl _ (upd_chan (dr ?x) _ _ _ _) => pose proof (Hdr s0 x Hx) as Hd end.
-  destruct Hd as [[A1 A2]|[A1 A2]]; [left | right]; split; assumption.
+  destruct Hx as [[A1 A2]|[A1 A2]]; [left | right]; split; assumption.
 Qed.
 
 Lemma cl_set_state_with dr next : ClF dr -> ClF (fun s => set_state_with dr s next).
@@ -492,3 +479,74 @@ Proof.
   - cbn [clear_logs upd_chan s_out_open s_closed negb]. rewrite andb_true_r. reflexivity.
   - cbn [negb]. rewrite andb_false_r. reflexivity.
 Qed.
+
+(* ---------- (3) invariants through the drain ---------- *)
+(* handleDisconnectState first lets the session handle what is buffered in messageIn: a chain of "handler, then setState"
+   rounds, each in the state the previous one left, until the buffer is empty or a frame disconnects the session; the
+   disconnect itself (disconnect_now) happens once, at the innermost level.  A predicate that survives one round of each
+   kind survives drainMessageIn, setState and Incoming. *)
+Definition fin (s : sess) (next : sstate) : sess :=
+  upd_st (if s_pending_stop s then upd_flags s (s_sent_reset s) (s_hb s) true true else s) next.
+
+Section Rounds.
+Variable P : sess -> Prop.
+Variable N : sstate -> Prop.       (* what is known of a disconnected state a handler returns *)
+Hypothesis P_pop : forall x m r, P x -> s_in_buf x = m :: r -> P (upd_chan x (s_out_open x) (s_in_open x) r (s_closed x)).
+Hypothesis P_msg_conn : forall x m s1 next, P x -> is_connected (s_st x) = true ->
+  state_fix_msg_in (s_st x) x m = (s1, next) -> is_connected next = true -> P (upd_st s1 next).
+Hypothesis P_msg_disc : forall x m s1 next, P x -> is_connected (s_st x) = true ->
+  state_fix_msg_in (s_st x) x m = (s1, next) -> is_connected next = false -> P s1 /\ N next.
+Hypothesis P_dead : forall s0 next, P s0 -> is_connected (s_st s0) = false -> is_connected next = false -> N next -> P (fin s0 next).
+Hypothesis P_disc : forall s0 next, P s0 -> is_connected (s_st s0) = true -> is_connected next = false -> N next ->
+  P (fin (disconnect_now s0) next).
+
+Lemma rounds_set_state_with dr s1 next : (forall y, P y -> P (dr y)) -> is_connected (s_st s1) = true ->
+  (is_connected next = true -> P (upd_st s1 next)) -> (is_connected next = false -> P s1 /\ N next) ->
+  P (set_state_with dr s1 next).
+Proof.
+  intros Hdr Hc H1 H2. unfold set_state_with. destruct (is_connected next) eqn:En; cbn [negb]; [exact (H1 eq_refl)|].
+  destruct (H2 eq_refl) as [Hp Hn]. rewrite Hc, hd_unfold, Hc. cbn [andb].
+  pose proof (Hdr s1 Hp) as Hp0.
+  destruct (is_connected (s_st (dr s1))) eqn:E0; cbn [negb].
+  - exact (P_disc (dr s1) next Hp0 E0 En Hn).
+  - exact (P_dead (dr s1) next Hp0 E0 En Hn).
+Qed.
+
+Lemma rounds_incoming_with dr x m : (forall y, P y -> P (dr y)) -> P x -> P (incoming_with dr x m).
+Proof.
+  intros Hdr Hp. unfold incoming_with. destruct (is_connected (s_st x)) eqn:Ec; cbn [negb]; [|exact Hp].
+  destruct m as [mm|]; [|exact Hp].
+  destruct (state_fix_msg_in (s_st x) x mm) as [s1 next] eqn:E.
+  apply rounds_set_state_with; [exact Hdr | | |].
+  - pose proof (fr_state_fix_msg_in x _ _ _ _ _ E (same_refl x)) as (_ & _ & _ & _ & _ & _ & _ & S8). rewrite S8. exact Ec.
+  - intros En. exact (P_msg_conn x mm s1 next Hp Ec E En).
+  - intros En. exact (P_msg_disc x mm s1 next Hp Ec E En).
+Qed.
+
+Lemma rounds_drain_message_in : forall fuel x, P x -> P (drain_message_in fuel x).
+Proof.
+  induction fuel as [|f IH]; intros x Hp; cbn [drain_message_in]; [exact Hp|].
+  destruct (negb (s_in_open x)); [exact Hp|]. destruct (s_in_buf x) as [|m r] eqn:Eb; [exact Hp|].
+  apply IH. apply rounds_incoming_with; [exact IH|]. exact (P_pop x m r Hp Eb).
+Qed.
+
+Lemma rounds_drain x : P x -> P (drain x).
+Proof. intros Hp. unfold drain. apply rounds_drain_message_in. exact Hp. Qed.
+
+Lemma rounds_set_state s1 next : is_connected (s_st s1) = true ->
+  (is_connected next = true -> P (upd_st s1 next)) -> (is_connected next = false -> P s1 /\ N next) -> P (set_state s1 next).
+Proof. intros Hc H1 H2. unfold set_state. apply rounds_set_state_with; [exact rounds_drain | assumption..]. Qed.
+
+Lemma rounds_incoming x m : P x -> P (incoming x m).
+Proof. intros Hp. unfold incoming. apply rounds_incoming_with; [exact rounds_drain | exact Hp]. Qed.
+End Rounds.
+
+(* setState from a state that is not connected: no handleDisconnectState *)
+Lemma set_state_not_connected s next : is_connected (s_st s) = false -> is_connected next = false -> set_state s next = fin s next.
+Proof. intros Hc Hn. unfold set_state, set_state_with, fin. rewrite Hn, Hc. reflexivity. Qed.
+Lemma set_state_connected_next s next : is_connected next = true -> set_state s next = upd_st s next.
+Proof. intros Hn. unfold set_state, set_state_with. rewrite Hn. reflexivity. Qed.
+
+(* the wire log through a handler: it only grows *)
+Lemma wire_grows_state_fix st s m s1 next : state_fix_msg_in st s m = (s1, next) -> exists new, s_wire s1 = new ++ s_wire s.
+Proof. intros E. destruct (nw_state_fix_msg_in s st s m s1 next E (nw_refl s)) as (new & A1 & _). exists new. exact A1. Qed.
